@@ -82,6 +82,22 @@ func opOperands(r *rng.R) (op string, c dec.Ctx, x, y dec.D, aux int64) {
 				c.P = 30
 			}
 		}
+		if r.Chance(1, 6) {
+			// a perfect square/cube whose root lies at or just below the bottom of
+			// the normal range: the exact result is subnormal (or tiny) but needs
+			// no rounding
+			k := int64(2)
+			if op == "cbrt" {
+				k = 3
+			}
+			nd := int64(1 + r.Intn(int(c.P)))
+			root, _ := new(big.Int).SetString(gen.Digits(r, nd), 10)
+			pw := new(big.Int).Exp(root, big.NewInt(k), nil)
+			re := c.Emin - nd + 1 + r.Range(-c.P, 2) // exponent of the root
+			if re*k >= gen.MinExp+10 {
+				x = dec.D{Form: dec.Finite, Neg: x.Neg && op == "cbrt", C: pw, E: re * k}
+			}
+		}
 	case "exp":
 		if c.P > 20 {
 			c.P = 20
